@@ -237,3 +237,23 @@ def gen_imports(rng):
         last = n if rng.chance(0.7) else rng.choice(names)
         ops.append("%s/%s=%s" % (rng.choice(dirs), last, n))
     return " ".join(ops)
+
+
+def small_exhaustive(n):
+    """every declaration with exactly n function providers p0..p(n-1) where p_i provides one fresh type, requires any
+    subset of the earlier providers' types and of one injector argument type, and is Async / fallible or not; the last
+    provider's type is requested (so earlier providers may be unneeded).  Complete for its shape: 8*16*...*(2^(i+1)*4)."""
+    import itertools
+    arg = 1
+    tys = [2 + i for i in range(n)]
+    def rec(i, provs):
+        if i == n:
+            yield fmt_decl(tys[-1], provs)
+            return
+        avail = [arg] + tys[:i]
+        for mask in range(1 << len(avail)):
+            req = [avail[j] for j in range(len(avail)) if mask >> j & 1]
+            for a in (0, 1):
+                for e in (0, 1):
+                    yield from rec(i + 1, provs + [dict(kind=0, a=a, e=e, req=req, groups=[[tys[i]]], sty=0, fields=[])])
+    return rec(0, [])
